@@ -27,7 +27,9 @@ MANIFEST = {
             "and the emission equivalence hold for bodies mentioning any built-in but those two (C05_ho_simulation_full, "
             "C05_emit_equiv_higher_order_full); the exclusion is exact: unique / includes apply Value::equals to argument elements, refuted "
             "in the model and reproduced on the implementation (C05_includes_function_equality_refuted, C05_unique_function_equality_refuted, "
-            "C05_all_builtins_unrestricted_refuted; finding F53); PARTIAL still: NaN / both-quote captured data; the "
+            "C05_all_builtins_unrestricted_refuted; finding F53), and exact with respect to the code: the excluded built-ins are "
+            "the arms of BuiltInFunction::call whose source text applies Value::equals (table coq/gen/ArmObservers.v regenerated on "
+            "every run, C05_equality_exclusion_matches_source); PARTIAL still: NaN / both-quote captured data; the "
             "original C05_full statement is REFUTED (function equality, finding F53); current-code defects are refuted lemmas.  EMIT correspondence: for generated "
             "functions x captured value pool the AST the real parser returns for the real emitted text, and the body of the "
             "real reloaded function, equal the model's inlined AST; behaviour original vs reloaded-in-fresh-session vs "
